@@ -107,6 +107,24 @@ pub extern "C" fn main(argc: c_int, argv: *const *const c_char, envp: *const *co
             return 0;
         }
     }
+    {
+        // the same for every command of a printed pipeline: one dump per program name, <dir>/<name>.argv
+        let v = unsafe { libc::getenv(b"VCHILD_DUMP_DIR\0".as_ptr() as *const c_char) };
+        if !v.is_null() {
+            let mut path = unsafe { CStr::from_ptr(v).to_bytes().to_vec() };
+            path.push(b'/');
+            path.extend_from_slice(base);
+            path.extend_from_slice(b".argv");
+            let rep = Rep::open(&path);
+            let mut out = Vec::new();
+            for i in 0..argc as isize {
+                out.extend_from_slice(arg_bytes(argv, i));
+                out.push(0);
+            }
+            let _ = wr_all(rep.fd, &out);
+            return 0;
+        }
+    }
     if base == b"sh" || base == b"env" {
         // stand-in for the platform shell (C16): report what the "shell" was given
         let v = unsafe { libc::getenv(b"VCHILD_REPORT\0".as_ptr() as *const c_char) };
